@@ -48,6 +48,9 @@ CLAIMS = {
  'C05': dict(tech='compile-fail/compile-pass witnesses decided by rustc (borrow checker, trait solver) + signature region rule over fn_sig + call-graph Send/Sync audit',
    text='The oracle is the compiler: a generated matrix of client programs (every public lifetime-carrying value kind x outlive / use-after-reset / move-away / across-iteration / thread-sharing misuse, plus Send/Sync bound probes) is type-checked against the crate built from the current tree; each misuse must be rejected with the expected error code while its legal twin compiles, and the ordinary patterns must compile. Beyond the finite matrix, two rules quantify over the whole public API: every region in a safe public function\'s return type occurs in a parameter type (no caller-chosen lifetime), and every public type rustc accepts as Send/Sync has no self-taking entry point (incl. Drop) that reaches an arena entry point in the call graph.',
    ref='DESIGN.md section 4 C05'),
+ 'C16': dict(tech='panic-safety typestate (Rudra-style) over CFGs with TermFlow-classified commit/hole operations and a transitive may-call-user summary',
+   text='Decides, for every function of the collections, Box and the arena fill/initialiser methods and for every site where user code may run and unwind (269 sites on the reference tree): no length or cursor has been advanced without an initialised/processed slot behind it, the slot being destroyed is already outside the length, and no moved-out or duplicated slot is exposed unless the length was zeroed first or a guard whose Drop restores the length covers it. These ordering facts are necessary conditions for no-double-drop / valid-UTF-8 after unwinding; they hold per loop iteration for all inputs. The full crash-point x follow-up enumeration is not performed, and guards are trusted to compute their length from fields that obey the ordering.',
+   ref='DESIGN.md section 4 C16'),
 }
 
 NOT_YET = 'check not built yet (build in progress, see DESIGN.md section 9)'
